@@ -17,7 +17,9 @@ type Style struct {
 	Blanks       int    `json:"blanks,omitempty"`       // rate of blank lines
 	TrailWS      int    `json:"trailws,omitempty"`      // rate of trailing blanks on directive lines
 	TrailComment int    `json:"trailcomment,omitempty"` // rate of trailing '# comment'
-	Quote        int    `json:"quote,omitempty"`        // rate of quoting parameters that need no quotes
+	// NoFinalNL: the root file ends without a line end.
+	NoFinalNL bool `json:"noFinalNL,omitempty"`
+	Quote     int  `json:"quote,omitempty"`        // rate of quoting parameters that need no quotes
 	Parens       int    `json:"parens,omitempty"`       // rate of putting children in explicit parentheses
 	AnnBlock     int    `json:"annblock,omitempty"`     // rate of /* */ instead of //
 	DescParens   int    `json:"descparens,omitempty"`   // rate of parenthesised descriptions
@@ -252,6 +254,8 @@ func (s *Schema) BodyLines() []string {
 		return []string{fmt.Sprint(s.Int)}
 	case "str":
 		return []string{fmt.Sprintf("%q", s.Str)}
+	case "bool":
+		return []string{"true"}
 	}
 	return nil
 }
@@ -543,8 +547,13 @@ func RenderDirs(dirs []*Dir, baseDepth int, st Style, file string) Rendered {
 	case "\r":
 		r.knobs["newline-cr"]++
 	}
-	r.files[file] = r.sb.String()
-	return Rendered{Text: r.sb.String(), Spans: r.spans, Knobs: r.knobs, Points: r.kcount, Files: r.files}
+	text := r.sb.String()
+	if st.NoFinalNL && strings.HasSuffix(text, r.nl) && file == "root.jst" {
+		text = strings.TrimSuffix(text, r.nl)
+		r.knobs["no-final-newline"]++
+	}
+	r.files[file] = text
+	return Rendered{Text: text, Spans: r.spans, Knobs: r.knobs, Points: r.kcount, Files: r.files}
 }
 
 // RewritePoints renders in counting mode and returns, per knob, how many
